@@ -39,11 +39,16 @@ World* make_world(World& w, int mA, int mB)
 	return &w;
 }
 
-Res run_tcp(int mA, int mB, int scode, int layout)
+Res run_tcp(int mA, int mB, int scode, int layout, bool multihomed)
 {
 	Res R; World w; make_world(w, mA, mB);
 	sim::simulation sim(w);
-	asio::io_context nA(sim, addr("10.0.0.1")), nB(sim, addr("10.0.0.2")), nS(sim, addr("10.0.1.1"));
+	// multihomed: both client addresses belong to ONE node, so that one node holds connections whose address pairs have different MTUs
+	std::unique_ptr<asio::io_context> nA_, nB_, nAB_;
+	if (multihomed) nAB_.reset(new asio::io_context(sim, std::vector<ip::address>{ addr("10.0.0.1"), addr("10.0.0.2") }));
+	else { nA_.reset(new asio::io_context(sim, addr("10.0.0.1"))); nB_.reset(new asio::io_context(sim, addr("10.0.0.2"))); }
+	asio::io_context& nA = multihomed ? *nAB_ : *nA_; asio::io_context& nB = multihomed ? *nAB_ : *nB_;
+	asio::io_context nS(sim, addr("10.0.1.1"));
 	ip::tcp::acceptor acc0(nS), acc1(nS);
 	acc0.open(ip::tcp::v4()); acc0.bind(ip::tcp::endpoint(addr("10.0.1.1"), 6000)); acc0.listen();
 	acc1.open(ip::tcp::v4()); acc1.bind(ip::tcp::endpoint(addr("10.0.1.1"), 6001)); acc1.listen();
@@ -77,6 +82,7 @@ Res run_tcp(int mA, int mB, int scode, int layout)
 	for (int k = 0; k < 2; ++k) {
 		c[k].wc = pat(k * 2, size_of(scode, c[k].mtu)); c[k].ws = pat(k * 2 + 1, size_of(scode, c[k].mtu));
 		c[k].cli.reset(new ip::tcp::socket(k == 0 ? nA : nB));
+		if (multihomed) { c[k].cli->open(ip::tcp::v4()); c[k].cli->bind(ip::tcp::endpoint(addr(k == 0 ? "10.0.0.1" : "10.0.0.2"), 0)); }
 		c[k].cli->async_connect(ip::tcp::endpoint(addr("10.0.1.1"), (unsigned short)(6000 + k)), [&, k](error_code const& ec) {
 			if (ec) { fail("connect: " + ecs(ec)); return; }
 			c[k].up_c = true; writer(*c[k].cli, c[k].wc); reader(*c[k].cli, c[k].rc, c[k].bc);
@@ -110,16 +116,23 @@ Res run_tcp(int mA, int mB, int scode, int layout)
 		if (a != b) fail(fmt("in_transit: the segment sequence seen at hop %d differs from the one put on the wire (merged, split, altered or lost)", h));
 	}
 	error_code ig; for (int k = 0; k < 2; ++k) { if (c[k].cli) c[k].cli->close(ig); if (c[k].srv) c[k].srv->close(ig); } acc0.close(ig); acc1.close(ig); sim.run();
+	for (int k = 0; k < 2; ++k) { c[k].cli.reset(); c[k].srv.reset(); }
 	return R;
 }
 
 // df: 0 never touched, 1 set, 2 set then cleared ; dir: 0 A->S, 1 S->A
-Res run_udp(int mtu, int scode, int df, int dir)
+Res run_udp(int mtu, int scode, int df, int dir, bool multihomed)
 {
 	Res R; World w; make_world(w, mtu, 1475);
 	sim::simulation sim(w);
-	asio::io_context nA(sim, addr("10.0.0.1")), nS(sim, addr("10.0.1.1"));
-	ip::udp::socket a(nA), s(nS);
+	std::unique_ptr<asio::io_context> nA_(multihomed ? new asio::io_context(sim, std::vector<ip::address>{ addr("10.0.0.1"), addr("10.0.0.2") }) : new asio::io_context(sim, addr("10.0.0.1")));
+	asio::io_context& nA = *nA_; asio::io_context nS(sim, addr("10.0.1.1"));
+	ip::udp::socket a(nA), s(nS), a2(nA);
+	if (multihomed && dir == 0) {
+		// another socket of the same node, on its other address (path MTU 1475 towards the same destination), sends a small datagram first
+		a2.open(ip::udp::v4()); a2.bind(ip::udp::endpoint(addr("10.0.0.2"), 4001)); a2.non_blocking(true);
+		error_code e0; a2.send_to(asio::buffer("x", 1), ip::udp::endpoint(addr("10.0.1.1"), 5999), 0, e0); // (to an unbound port: not delivered anywhere)
+	}
 	a.open(ip::udp::v4()); a.bind(ip::udp::endpoint(addr("10.0.0.1"), 4000)); a.non_blocking(true);
 	s.open(ip::udp::v4()); s.bind(ip::udp::endpoint(addr("10.0.1.1"), 5000)); s.non_blocking(true);
 	ip::udp::socket& tx = dir == 0 ? a : s; ip::udp::socket& rx = dir == 0 ? s : a;
@@ -147,17 +160,17 @@ Res run_udp(int mtu, int scode, int df, int dir)
 
 struct MtuEngine : Engine
 {
-	struct U { int kind, a, b, c, d; };
+	struct U { int kind, a, b, c, d, mh; };
 	std::vector<U> all;
 	uint64_t units(Args const&) override
 	{
 		all.clear();
-		for (int a = 0; a < 4; ++a) for (int b = 0; b < 4; ++b) for (int s = 0; s < 7; ++s) for (int l = 0; l < 2; ++l) all.push_back(U{ 0, MTUS[a], MTUS[b], s, l });
-		for (int a = 0; a < 4; ++a) for (int s = 0; s < 7; ++s) for (int df = 0; df < 3; ++df) for (int dir = 0; dir < 2; ++dir) all.push_back(U{ 1, MTUS[a], s, df, dir });
+		for (int mh = 0; mh < 2; ++mh) for (int a = 0; a < 4; ++a) for (int b = 0; b < 4; ++b) for (int s = 0; s < 7; ++s) for (int l = 0; l < 2; ++l) all.push_back(U{ 0, MTUS[a], MTUS[b], s, l, mh });
+		for (int mh = 0; mh < 2; ++mh) for (int a = 0; a < 4; ++a) for (int s = 0; s < 7; ++s) for (int df = 0; df < 3; ++df) for (int dir = 0; dir < 2; ++dir) all.push_back(U{ 1, MTUS[a], s, df, dir, mh });
 		return all.size();
 	}
-	Res exec(U const& u) { return u.kind == 0 ? run_tcp(u.a, u.b, u.c, u.d) : run_udp(u.a, u.b, u.c, u.d); }
-	std::string ustr(U const& u) { return u.kind == 0 ? fmt("tcp mtu(A,S)=%d mtu(B,S)=%d size-code %d layout %d", u.a, u.b, u.c, u.d) : fmt("udp mtu=%d size-code %d df=%d dir=%d", u.a, u.b, u.c, u.d); }
+	Res exec(U const& u) { return u.kind == 0 ? run_tcp(u.a, u.b, u.c, u.d, u.mh != 0) : run_udp(u.a, u.b, u.c, u.d, u.mh != 0); }
+	std::string ustr(U const& u) { return (u.kind == 0 ? fmt("tcp mtu(A,S)=%d mtu(B,S)=%d size-code %d layout %d", u.a, u.b, u.c, u.d) : fmt("udp mtu=%d size-code %d df=%d dir=%d", u.a, u.b, u.c, u.d)) + (u.mh ? " [both client addresses on one multi-homed node]" : ""); }
 	void run_unit(uint64_t i, Ctx& ctx) override
 	{
 		if (!ctx.next_case()) return;
